@@ -120,7 +120,7 @@ def draw_chain(draw):
     tname = case["nodes"][i]["name"]
     sch = schema.infer(case)[case["root"]]
     # optional injected step that a correct builder must reject (or a checked join it must judge correctly)
-    inj = g.pick(["none", "none", "none", "select_dropped", "extend_unknown", "join_check", "join_check", "order_unknown"])
+    inj = g.pick(["none", "none", "none", "select_dropped", "extend_unknown", "join_check", "join_check", "join_check", "order_unknown"])
     dropped = []
     for s in steps:
         if s["op"] == "drop_columns":
